@@ -345,6 +345,7 @@ func c14Extra(c *Ctx) {
 }
 
 func c14API(c *Ctx) {
+	c14Web(c)
 	c14Extra(c)
 	var sc c14Script
 	var seen metadata.MD
@@ -630,6 +631,208 @@ func c14API(c *Ctx) {
 			}
 			if ct := rec.Header().Get("Content-Type"); ct == "forged" {
 				c.SpecFail("api-http-md", in, ct, "application/json", "C14/http/content-type-forged", "handler metadata changed content-type")
+			}
+		}
+	}
+}
+
+// snapRW records the header map at the moment the header block goes out.
+type snapRW struct {
+	*httptest.ResponseRecorder
+	first http.Header
+}
+
+func (s *snapRW) snap() {
+	if s.first == nil {
+		s.first = s.ResponseRecorder.Header().Clone()
+	}
+}
+func (s *snapRW) Write(b []byte) (int, error) { s.snap(); return s.ResponseRecorder.Write(b) }
+func (s *snapRW) WriteHeader(code int)        { s.snap(); s.ResponseRecorder.WriteHeader(code) }
+
+func hdrLine(h http.Header) string {
+	if len(h) == 0 {
+		return "-"
+	}
+	var es []string
+	for k, vs := range h {
+		var xs []string
+		for _, v := range vs {
+			if v == "" {
+				xs = append(xs, "-")
+			} else {
+				xs = append(xs, hexS(v))
+			}
+		}
+		es = append(es, hexS(k)+"="+strings.Join(xs, ","))
+	}
+	sort.Strings(es)
+	return strings.Join(es, ";")
+}
+
+// c14Web: the gRPC-web trailer frame against the webWriter model — the header map when the
+// header block went out and when the handler had returned decide, key by key, what the frame
+// holds — and against the property (every handler trailer is in the frame).
+func c14Web(c *Ctx) {
+	type script struct {
+		hdr, tr      metadata.MD
+		sendHeader   bool
+		msgs         int
+		trBeforeMsgs bool
+		fail         bool
+	}
+	var cur script
+	h := func(fx *Fixture, ms *MethodSpec, st grpc.ServerStream) error {
+		if err := st.RecvMsg(fx.NewMsg("Req")); err != nil {
+			return err
+		}
+		if len(cur.hdr) > 0 {
+			st.SetHeader(cur.hdr) //nolint
+		}
+		if cur.trBeforeMsgs {
+			st.SetTrailer(cur.tr)
+		}
+		if cur.sendHeader {
+			st.SendHeader(nil) //nolint
+		}
+		for i := 0; i < cur.msgs; i++ {
+			if err := st.SendMsg(fx.NewMsg("Reply")); err != nil {
+				return err
+			}
+		}
+		if !cur.trBeforeMsgs {
+			st.SetTrailer(cur.tr)
+		}
+		if cur.fail {
+			return status.Error(codes.Aborted, "c14web")
+		}
+		return nil
+	}
+	fx, err := NewFixture([]*MethodSpec{{Name: "WebMD", In: "Req", Out: "Reply", ServerStream: true, Stream: h}}, nil)
+	if err != nil || fx.RegErr != nil || fx.RegPanic != nil {
+		c.SpecFail("fixture", "c14 web", fmt.Sprint(err, fx.RegErr, fx.RegPanic), "", "C14/fixture", "fixture")
+		return
+	}
+	defer fx.Close()
+	keys := []string{"x-a", "x-b", "x-c-bin", "x-d", "x-long-key-name", "x-e-bin"}
+	genMD := func() metadata.MD {
+		md := metadata.MD{}
+		for n := c.Rng.Intn(4); n > 0; n-- {
+			k := keys[c.Rng.Intn(len(keys))]
+			for m := 1 + c.Rng.Intn(2); m > 0; m-- {
+				v := fmt.Sprintf("v%d", c.Rng.Intn(1000))
+				if strings.HasSuffix(k, "-bin") {
+					v = string([]byte{byte(c.Rng.Intn(256)), 0, byte(c.Rng.Intn(256))})
+				}
+				md.Append(k, v)
+			}
+		}
+		return md
+	}
+	for i := 0; i < c.N(160, 3000); i++ {
+		cur = script{hdr: genMD(), tr: genMD(), sendHeader: c.Rng.Intn(3) == 0, msgs: c.Rng.Intn(3), trBeforeMsgs: c.Rng.Intn(3) == 0, fail: c.Rng.Intn(3) == 0}
+		ct := []string{"application/grpc-web+proto", "application/grpc-web-text+proto", "application/grpc-web"}[c.Rng.Intn(3)]
+		var r *http.Request
+		if strings.Contains(ct, "text") {
+			r = httptest.NewRequest("POST", "/verif.v1.Svc/WebMD", strings.NewReader(base64.StdEncoding.EncodeToString(grpcFrame(0, nil))))
+		} else {
+			r = httptest.NewRequest("POST", "/verif.v1.Svc/WebMD", bytes.NewReader(grpcFrame(0, nil)))
+		}
+		r.Header.Set("Content-Type", ct)
+		rw := &snapRW{ResponseRecorder: httptest.NewRecorder()}
+		_, pn := serveOn(fx.Mux, r, rw)
+		in := fmt.Sprintf("%s hdr=%v tr=%v sendHeader=%v msgs=%d trailerFirst=%v fail=%v", ct, cur.hdr, cur.tr, cur.sendHeader, cur.msgs, cur.trBeforeMsgs, cur.fail)
+		if pn != nil {
+			c.Eval("api-web-trailer", in, true)
+			c.SpecFail("api-web-trailer", in, fmt.Sprint("panic ", pn), "a response", "C14/web/panic", "panic")
+			continue
+		}
+		body := rw.Body.Bytes()
+		if strings.Contains(ct, "text") {
+			d, err := base64.StdEncoding.DecodeString(string(body))
+			if err != nil {
+				c.SpecFail("api-web-trailer", in, "body is not base64: "+truncS(string(body), 80), "base64", "C14/web/body-not-base64", "")
+				continue
+			}
+			body = d
+		}
+		frames, flags, _ := parseFrames(body)
+		got := map[string][]string{}
+		nTrailerFrames := 0
+		for j, f := range frames {
+			if flags[j]&0x80 == 0 {
+				continue
+			}
+			nTrailerFrames++
+			for _, ln := range strings.Split(string(f), "\r\n") {
+				if ln == "" {
+					continue
+				}
+				k, v, _ := strings.Cut(ln, ": ")
+				got[k] = append(got[k], v)
+			}
+		}
+		var es []string
+		for k, vs := range got {
+			var xs []string
+			for _, v := range vs {
+				xs = append(xs, hexS(v))
+			}
+			es = append(es, hexS(k)+"="+strings.Join(xs, ","))
+		}
+		sort.Strings(es)
+		respCT := rw.Header().Get("Content-Type")
+		firstLine, implLine := "!", "no-frame"
+		if rw.first != nil {
+			firstLine = hdrLine(rw.first)
+		}
+		if nTrailerFrames > 0 {
+			implLine = strings.Join(es, ";")
+		}
+		c.Correspond("web-trailer-frame", join("webtrailer", hexS(respCT), firstLine, hdrLine(rw.Header())), implLine, true)
+		// the property: every handler trailer (not protocol-reserved) reaches the client, -bin values
+		// byte-exact: in the trailer frame, or — a response without any body is a headers-only
+		// response — in the HTTP header block / HTTP trailers
+		if nTrailerFrames > 1 || (nTrailerFrames == 0 && len(frames) > 0) {
+			c.SpecFail("api-web-trailer", in, fmt.Sprintf("%d trailer frames after %d frames", nTrailerFrames, len(frames)), "exactly one", "C14/web/trailer-frame-count", "")
+			continue
+		}
+		if nTrailerFrames == 0 {
+			res := rw.Result()
+			for k, vs := range res.Header {
+				got[strings.ToLower(k)] = vs
+			}
+			for k, vs := range res.Trailer {
+				got[strings.ToLower(k)] = vs
+			}
+		}
+		for k, vs := range cur.tr {
+			want := append([]string{}, vs...)
+			gotv := append([]string{}, got[k]...)
+			if strings.HasSuffix(k, "-bin") {
+				for j := range gotv {
+					d, _ := base64.RawStdEncoding.DecodeString(strings.TrimRight(gotv[j], "="))
+					gotv[j] = string(d)
+				}
+			}
+			if strings.Join(gotv, "\x00") != strings.Join(want, "\x00") {
+				c.SpecFail("api-web-trailer", in, fmt.Sprintf("trailer frame %s=%q", k, gotv), fmt.Sprintf("%q", want), "C14/web/handler-trailer-lost", "a handler trailer does not reach the gRPC-web client in the trailer frame")
+			}
+		}
+		if len(got["grpc-status"]) != 1 || (cur.fail && got["grpc-status"][0] != "10") || (!cur.fail && got["grpc-status"][0] != "0") {
+			c.SpecFail("api-web-trailer", in, fmt.Sprintf("grpc-status=%q", got["grpc-status"]), "the handler's status", "C14/web/status-not-in-trailer-frame", "")
+		}
+		// handler headers reach the client as HTTP headers
+		for k, vs := range cur.hdr {
+			gotv := append([]string{}, rw.Result().Header.Values(k)...)
+			if strings.HasSuffix(k, "-bin") {
+				for j := range gotv {
+					d, _ := base64.RawStdEncoding.DecodeString(strings.TrimRight(gotv[j], "="))
+					gotv[j] = string(d)
+				}
+			}
+			if strings.Join(gotv, "\x00") != strings.Join(vs, "\x00") {
+				c.SpecFail("api-web-trailer", in, fmt.Sprintf("header %s=%q", k, gotv), fmt.Sprintf("%q", vs), "C14/web/handler-header-lost", "handler header metadata does not reach the gRPC-web client")
 			}
 		}
 	}
